@@ -1,4 +1,5 @@
 import OvniModel.Tools.Ovnisort
+import OvniModel.Tools.OvnisortOld
 import OvniModel.Lemmas.OvnisortSort
 import OvniModel.Lemmas.OvnisortRing
 import OvniModel.Lemmas.OvnisortInv
@@ -16,8 +17,14 @@ hypothesis, true for the insertion sort `isort` used by the driver and for
 glibc's merge sort).
 
 Preconditions of the property, all decidable:
-`OnlyRegionsUnsorted evs`, `WithinWindow n evs`, `ClocksSigned evs`
-(clocks < 2^63), look-back `n ≥ 1`, at least one event.
+`OnlyRegionsUnsorted evs`, `WithinWindow n evs` (every region *that is not
+already in place* finds its destination within the look-back; a region whose
+events, `OU[` marker included, have non-decreasing clocks is left alone by
+`region_in_place` and needs no window), `ClocksSigned evs` (clocks < 2^63),
+look-back `n ≥ 1`, at least one event.
+
+`sorted_input_noop` / `second_run_noop` are the statements that the code
+violated before `region_in_place` was added (`second_run_fails_before_fix`).
 -/
 namespace Ovni.Props.C16
 open Ovni.Ovnisort
@@ -116,52 +123,84 @@ theorem winsort_eq_stable_sort {sortFn : List Ev → List Ev} (hf : IsSort sortF
   · intro c
     rw [equal_clock_order_preserved hs, isort_atClock]
 
-/-- **idempotent.** Sorting a sorted stream changes nothing (stable `qsort`,
-    clocks < 2^63) — for every look-back, also when that second run reports
-    that it cannot find a destination. -/
-theorem idempotent {sortFn : List Ev → List Ev} (hf : IsSort sortFn) (hs : Stable sortFn) (n : Nat)
-    {evs : List Ev} (hsorted : Sorted evs) (hc : ClocksSigned evs) (trunc : Bool) :
-    (winsort sortFn n evs trunc).out = evs := by
+/-- **sorted_input_noop.** On *any* stream whose events already have
+    non-decreasing clocks — whatever its regions (closed or not, nested
+    markers, empty), the look-back `n ≥ 1`, the clocks (also ≥ 2^63) and
+    `qsort` — ovnisort exits 0, executes no sort plan and leaves every event,
+    hence every byte, where it was: no region makes it look back. -/
+theorem sorted_input_noop (sortFn : List Ev → List Ev) {n : Nat} (_hn : 1 ≤ n) {evs : List Ev}
+    (hne : evs ≠ []) (hsorted : Sorted evs) :
+    (winsort sortFn n evs).status = Status.ok ∧
+    (winsort sortFn n evs).out = evs ∧
+    encodeBody (winsort sortFn n evs).out = encodeBody evs ∧
+    (winsort sortFn n evs).plans = [] := by
+  obtain ⟨h1, h2, h3⟩ := winsort_sorted_noop sortFn n hne hsorted false
+  exact ⟨by simpa using h3, h1, by rw [h1], h2⟩
+
+/-- The `region_in_place` shortcut changes no result: when the events before
+    the `OU[` marker are sorted (the loop invariant under `OnlyRegionsUnsorted`)
+    and the region is in place, the look back + `qsort` + write that the code
+    would otherwise perform (`sortRegion`, with a stable `qsort` and clocks
+    < 2^63) leaves the buffer exactly as it is — in every outcome, also when
+    it fails to find a destination.  The shortcut only removes that failure. -/
+theorem in_place_skip_exact {sortFn : List Ev → List Ev} (hf : IsSort sortFn) (hs : Stable sortFn)
+    {buf : List Ev} {opn : Nat} (hlt : opn < buf.length) (hpre : Sorted (buf.take (opn + 1)))
+    (hip : regionInPlace buf opn = true) (hc : ClocksSigned buf) (r : Ring) (bad0 : Nat) :
+    (sortRegion sortFn buf r bad0).2.1 = buf ∧
+    (executeSortPlan sortFn buf r opn bad0) = (Status.ok, buf, r, none) := by
+  refine ⟨?_, exec_inPlace hip⟩
+  have hsd : Sorted buf := sorted_of_inPlace hlt hpre hip
+  rcases sortRegion_shape sortFn buf r bad0 with ⟨h, _⟩ | ⟨first, h, _⟩
+  · exact h
+  · rw [h]
+    unfold sortFrom
+    rw [sorted_of_stable_eq_self hf hs (List.Pairwise.sublist (List.drop_sublist _ _) hsd)
+      (fun x hx => hc x (List.mem_of_mem_drop hx)), List.take_append_drop]
+
+/-- **idempotent.** Sorting a sorted stream changes nothing — for every
+    look-back and `qsort`, also when the stream ends with an incomplete event
+    (then the run reports that, after having written nothing). -/
+theorem idempotent (sortFn : List Ev → List Ev) (n : Nat) {evs : List Ev} (hsorted : Sorted evs)
+    (trunc : Bool) : (winsort sortFn n evs trunc).out = evs ∧ (winsort sortFn n evs trunc).plans = [] := by
   cases evs with
-  | nil => rfl
+  | nil => exact ⟨rfl, rfl⟩
   | cons e t =>
-    apply wsLoop_rel (R := fun d p => d = p) (e :: t) _ _ trunc (e :: t) (WS.init n) [] rfl rfl
-    · intro d p x h; rw [h]
-    · intro d p first ⟨tl, htl⟩ h
-      subst h
-      unfold sortFrom
-      have hd : Sorted d := by
-        rw [← htl] at hsorted
-        exact (List.pairwise_append.1 hsorted).1
-      have hdc : ∀ x ∈ d, x.clock < 2 ^ 63 := fun x hx => hc x (by rw [← htl]; exact List.mem_append_left _ hx)
-      rw [sorted_of_stable_eq_self hf hs (List.Pairwise.sublist (List.drop_sublist _ _) hd)
-        (fun x hx => hdc x (List.mem_of_mem_drop hx)), List.take_append_drop]
+    obtain ⟨h1, h2, _⟩ := winsort_sorted_noop sortFn n (List.cons_ne_nil e t) hsorted trunc
+    exact ⟨h1, h2⟩
 
-/-- Running ovnisort again on the result of a successful run leaves it as is. -/
-theorem idempotent_after_sort {sortFn : List Ev → List Ev} (hf : IsSort sortFn) (hs : Stable sortFn)
-    {n : Nat} (hn : 1 ≤ n) {evs : List Ev} (hne : evs ≠ []) (hr : OnlyRegionsUnsorted evs)
-    (hw : WithinWindow n evs) (hc : ClocksSigned evs) (n' : Nat) :
-    (winsort sortFn n' (winsort sortFn n evs).out).out = (winsort sortFn n evs).out := by
-  obtain ⟨_, h2, h3⟩ := (winsort_main hf hn hne hr hc).1 hw
-  exact idempotent hf hs n' h2 (fun e he => hc e (h3.mem_iff.1 he)) false
-
--- OPEN (false as stated, see `second_run_may_fail`): the second run with the
--- same look-back also *exits successfully*:
---   (winsort sortFn n (winsort sortFn n evs).out).status = Status.ok
--- `second_run_status_partial` below gives it for a look-back exceeding the stream length.
-
-/-- The second run succeeds when the look-back exceeds the number of events
-    (then the ring never fills).  What is missing for the full statement: with
-    a smaller look-back it is *false* (next example). -/
-theorem second_run_status_partial {sortFn : List Ev → List Ev} (hf : IsSort sortFn) {n : Nat} (hn : 1 ≤ n)
+/-- **second_run_noop.** Under the preconditions of `winsort_ok`, running
+    ovnisort again on the result (same look-back `n`, or any other `n' ≥ 1`)
+    exits 0, executes no sort plan and returns the same events and bytes; so
+    does every further run. -/
+theorem second_run_noop {sortFn : List Ev → List Ev} (hf : IsSort sortFn) {n : Nat} (hn : 1 ≤ n)
     {evs : List Ev} (hne : evs ≠ []) (hr : OnlyRegionsUnsorted evs) (hw : WithinWindow n evs)
-    (hc : ClocksSigned evs) (hr' : OnlyRegionsUnsorted (winsort sortFn n evs).out)
-    (hw' : WithinWindow n (winsort sortFn n evs).out) :
-    (winsort sortFn n (winsort sortFn n evs).out).status = Status.ok := by
-  obtain ⟨_, _, h3⟩ := (winsort_main hf hn hne hr hc).1 hw
+    (hc : ClocksSigned evs) {n' : Nat} (hn' : 1 ≤ n') :
+    (winsort sortFn n' (winsort sortFn n evs).out).status = Status.ok ∧
+    (winsort sortFn n' (winsort sortFn n evs).out).out = (winsort sortFn n evs).out ∧
+    encodeBody (winsort sortFn n' (winsort sortFn n evs).out).out = encodeBody (winsort sortFn n evs).out ∧
+    (winsort sortFn n' (winsort sortFn n evs).out).plans = [] := by
+  obtain ⟨_, h2, h3⟩ := (winsort_main hf hn hne hr hc).1 hw
   have hne' : (winsort sortFn n evs).out ≠ [] := by
     intro h; rw [h] at h3; exact hne h3.symm.eq_nil
-  exact ((winsort_main hf hn hne' hr' (fun e he => hc e (h3.mem_iff.1 he))).1 hw').1
+  exact sorted_input_noop sortFn hn' hne' h2
+
+/-- the stream after `k` consecutive runs of ovnisort with look-back `n` -/
+def rerun (sortFn : List Ev → List Ev) (n : Nat) : Nat → List Ev → List Ev
+  | 0, l => l
+  | k + 1, l => rerun sortFn n k (winsort sortFn n l).out
+
+/-- Third, fourth, … run: a sorted stream survives any number of runs
+    unchanged and each of them exits 0. -/
+theorem every_rerun_noop (sortFn : List Ev → List Ev) {n : Nat} (hn : 1 ≤ n) {evs : List Ev}
+    (hne : evs ≠ []) (hsorted : Sorted evs) (k : Nat) :
+    rerun sortFn n k evs = evs ∧ (winsort sortFn n (rerun sortFn n k evs)).status = Status.ok := by
+  obtain ⟨h1, h2, _, _⟩ := sorted_input_noop sortFn hn hne hsorted
+  induction k with
+  | zero => exact ⟨rfl, h1⟩
+  | succ k ih =>
+    show rerun sortFn n k (winsort sortFn n evs).out = evs ∧
+      (winsort sortFn n (rerun sortFn n k (winsort sortFn n evs).out)).status = Status.ok
+    rw [h2]; exact ih
 
 /-- `ovnisort -c` passes exactly on non-empty streams with non-decreasing clocks. -/
 theorem streamCheck_iff (l : List Ev) : streamCheck l = true ↔ l ≠ [] ∧ Sorted l := by
@@ -202,15 +241,18 @@ theorem emulator_accepts_sorted {sortFn : List Ev → List Ev} (hf : IsSort sort
     rw [List.pairwise_cons] at hs
     exact stepsMonotone_of_ssorted hs.2 _ hs.1
 
-/-- **fails_loudly**, structural part: when `find_destination` finds nothing,
-    `execute_sort_plan` reports an error and writes nothing … -/
-theorem no_destination_is_error (sortFn : List Ev → List Ev) (buf : List Ev) (r : Ring) (bad0 : Nat)
+/-- **fails_loudly**, structural part: when the region is not in place and
+    `find_destination` finds nothing, `execute_sort_plan` reports an error and
+    writes nothing … -/
+theorem no_destination_is_error (sortFn : List Ev → List Ev) (buf : List Ev) (r : Ring) (opn bad0 : Nat)
     (c : Nat) (hc : c = (if minClock (clockAt buf bad0) (buf.drop bad0) < clockAt buf bad0
       then minClock (clockAt buf bad0) (buf.drop bad0) else clockAt buf bad0))
+    (hip : regionInPlace buf opn = false)
     (h : findDestination buf r c = Dest.notFound) :
-    executeSortPlan sortFn buf r bad0 = (Status.errNoDest, buf, r, none) := by
+    executeSortPlan sortFn buf r opn bad0 = (Status.errNoDest, buf, r, none) := by
   subst hc
-  unfold executeSortPlan
+  rw [exec_notInPlace hip]
+  unfold sortRegion
   simp only [h]
 
 /-- … and an error inside the loop is the status of the whole run, never `ok`. -/
@@ -220,7 +262,7 @@ theorem step_error_is_final {sortFn : List Ev → List Ev} {trunc : Bool} {s : W
   wsLoop_error_status h
 
 /-- **fails_loudly.** If the stream is otherwise as required but some region
-    has its destination outside the look-back window, ovnisort reports
+    that is not in place has its destination outside the look-back window, ovnisort reports
     "cannot find destination" — it never exits successfully. -/
 theorem fails_loudly {sortFn : List Ev → List Ev} (hf : IsSort sortFn) {n : Nat} (hn : 1 ≤ n)
     {evs : List Ev} (hne : evs ≠ []) (hr : OnlyRegionsUnsorted evs) (hc : ClocksSigned evs)
@@ -239,6 +281,13 @@ theorem status_ok_iff {sortFn : List Ev → List Ev} (hf : IsSort sortFn) {n : N
     cases h
   · exact fun hw => ((winsort_main hf hn hne hr hc).1 hw).1
 
+/-- `WithinWindow` is implied by the window condition on *every* non-empty
+    region (the form of the precondition before in-place regions were
+    exempted): the theorems above cover all streams they covered then. -/
+theorem withinWindow_of_every_region {n : Nat} {evs : List Ev} (h : windowOkAll n St.S [] 0 evs = true) :
+    WithinWindow n evs :=
+  windowOk_of_all n evs St.S [] 0 true 0 h
+
 /-- The hypotheses on `qsort` are satisfiable: insertion sort with `cmp_ev`. -/
 theorem isort_is_stable_sort : IsSort isort ∧ Stable isort := ⟨isort_isSort, isort_stable⟩
 
@@ -253,17 +302,40 @@ private def ex1 : List Ev :=
 
 example : ex1 ≠ [] ∧ OnlyRegionsUnsorted ex1 ∧ WithinWindow 7 ex1 ∧ ClocksSigned ex1 := by decide
 
-example : (winsort isort 7 ex1).status = Status.ok ∧ (winsort isort 7 ex1).plans = [(1, 5), (4, 10)] ∧
+example : (winsort isort 7 ex1).status = Status.ok ∧ (winsort isort 7 ex1).plans = [(4, 10)] ∧
     (winsort isort 7 ex1).out.map (·.clock) = [0, 1, 2, 3, 4, 10, 11, 12, 20, 21, 22, 30] := by decide
 
 example : ¬ WithinWindow 6 ex1 ∧ (winsort isort 6 ex1).status = Status.errNoDest := by decide
 
-/-- The witness for the OPEN statement above: the first run with `-n 7`
-    succeeds, the second run with `-n 7` on its (unchanged) result reports
-    "cannot find destination" (confirmed on the real tool by the check). -/
-theorem second_run_may_fail :
-    (winsort isort 7 ex1).status = Status.ok ∧
-    (winsort isort 7 (winsort isort 7 ex1).out).status = Status.errNoDest ∧
-    (winsort isort 7 (winsort isort 7 ex1).out).out = (winsort isort 7 ex1).out := by decide
+/-- The defect that `region_in_place` repairs, on the code as it was: the
+    first run with `-n 7` succeeds, the second run with `-n 7` on its
+    (unchanged, sorted) result reports "cannot find destination" — the events
+    moved in front of the first `OU]` made that region larger than the window
+    (seen on the real tool before the fix). -/
+theorem second_run_fails_before_fix :
+    (winsortOld isort 7 ex1).status = Status.ok ∧
+    Sorted (winsortOld isort 7 ex1).out ∧
+    (winsortOld isort 7 (winsortOld isort 7 ex1).out).status = Status.errNoDest ∧
+    (winsortOld isort 7 (winsortOld isort 7 ex1).out).out = (winsortOld isort 7 ex1).out := by decide
+
+/-- … and on the code as it is: same first result, second and third run exit
+    0 and change nothing. -/
+theorem second_run_witness_fixed :
+    (winsort isort 7 ex1).out = (winsortOld isort 7 ex1).out ∧
+    (winsort isort 7 (winsort isort 7 ex1).out).status = Status.ok ∧
+    (winsort isort 7 (winsort isort 7 ex1).out).out = (winsort isort 7 ex1).out ∧
+    (winsort isort 7 (winsort isort 7 ex1).out).plans = [] ∧
+    (winsort isort 7 (winsort isort 7 (winsort isort 7 ex1).out).out).status = Status.ok ∧
+    (winsort isort 7 (winsort isort 7 (winsort isort 7 ex1).out).out).out = (winsort isort 7 ex1).out := by
+  decide
+
+/-- a sorted stream on which the old code failed at the *first* run (all
+    clocks equal, more of them than the look-back 3): no event with a strictly
+    smaller clock exists -/
+private def ex2 : List Ev :=
+  [ev 5, ev 5, ev 5, ev 5 Kind.start, ev 5, ev 5 Kind.stop, ev 6]
+
+example : Sorted ex2 ∧ (winsortOld isort 3 ex2).status = Status.errNoDest ∧
+    (winsort isort 3 ex2).status = Status.ok ∧ (winsort isort 3 ex2).out = ex2 := by decide
 
 end Ovni.Props.C16
